@@ -799,10 +799,16 @@ ELEMENT_NAMES = [
     'RETURNVALUE', 'IRETURNVALUE', 'CORRELATOR']
 ODD_NAMES = ['ANY', 'EMBEDDEDOBJECT', 'EmbeddedObject', 'value', 'Instance', 'X', 'CIM.X', 'VALUE_NULL', 'NOTIMPLEMENTED',
              'INSTANCE.', '__INIT__', 'CHECK.NODE', 'ONE.CHILD', 'UNPACK.VALUE']
-NUMERIC_TEXT = ['INF', '-INF', 'inf', 'NaN', 'nan', '1e400', '-1e400', '1_0', '٣', '0x', '0x1F', '-0x80', '+', '-', '',
+HOSTILE = ['{0}', '{name}', '{}', '%s', '%(x)s', '{{', '}}', '${when}', '\\d{14}', '{0!A}', '{0', '}', '{1}{0}']
+ISDIGIT_NOT_INT = ['\u00b2', '\u2075', '\u2081\u2080', '\u2460', '1\u00b2', '\u0663\u00b2']
+LONG_NUMBERS = ['9' * 4300, '9' * 4301, '1' + '0' * 5000, '0x' + 'f' * 3600, '0x' + 'f' * 5000, '-' + '9' * 4301,
+                '1_' * 2200 + '1', ' ' + '7' * 4301 + ' ']
+ERROR_CODES = ['1', '6', '5', '0', '17', '28', '99', 'x', '', ' 5 ', '1_0', '-3', '5.0', '\u0665', '4294967296',
+               '9' * 4301] + ISDIGIT_NOT_INT + HOSTILE[:4]
+NUMERIC_TEXT = HOSTILE + ISDIGIT_NOT_INT + LONG_NUMBERS + ['INF', '-INF', 'inf', 'NaN', 'nan', '1e400', '-1e400', '1_0', '٣', '0x', '0x1F', '-0x80', '+', '-', '',
                 ' 12 ', '3.7', '1e3', '256', '-129', '65536', '4294967296', '18446744073709551616', '-9223372036854775809',
                 '9' * 400, '1' + '0' * 310, '0b1', '0o7', '1L', '१२', '1,5', '1.', '.5', 'Infinity', '1e', 'abc', '１']
-ATTR_GARBAGE = ['', 'x', ' ', '1x', '-1', '0', '99999999999999999999', 'true ', 'TRUE', 'yes', 'uint8\n', 'Uint8', 'UINT8',
+ATTR_GARBAGE = HOSTILE + ISDIGIT_NOT_INT + ['9' * 4301] + ['', 'x', ' ', '1x', '-1', '0', '99999999999999999999', 'true ', 'TRUE', 'yes', 'uint8\n', 'Uint8', 'UINT8',
                 'string', 'reference', 'boolean', 'datetime', 'char16', 'real32', 'object', 'instance', 'bogus', '٣', '1_0',
                 'uint8', 'sint64', '3.0', '2.x', '1.', 'é', '\n', '0x10', '+5', ' 7 ', 'numeric', 'IRETURNVALUE', 'ERROR',
                 'EndOfSequence', 'EnumerationContext', 'QueryResultClass']
@@ -854,7 +860,7 @@ def pool_elements(g):
     if k == 16:
         return obj_tree(_cim_xml.OBJECTPATH(_classpath(g).tocimxml()))
     if k == 17:
-        return error_elem(r.choice(['1', '6', '0', '17', '28', '99', 'x', '', ' 5 ', '1_0', '-3', '5.0', '٥']),
+        return error_elem(r.choice(ERROR_CODES),
                           r.choice([None, 'd', '']), [obj_tree(_inst(g))] if r.random() < 0.3 else [])
     if k == 18:
         return paramvalue(r.choice(['EndOfSequence', 'EnumerationContext', 'QueryResultClass', 'P0', 'IRETURNVALUE', 'ERROR']),
@@ -946,7 +952,7 @@ def mutate(g, t):
         cands = [n for _, n in nodes if n[0] in ('VALUE', 'KEYVALUE', 'HOST')]
         if cands:
             n = r.choice(cands)
-            n[2] = [r.choice(['', ' ', 'x', 'TRUE', 'maybe', '<INSTANCE CLASSNAME="C"/>', '<CLASS NAME="C"/>', '<X/>', '<',
+            n[2] = [r.choice(HOSTILE + ['', ' ', 'x', 'TRUE', 'maybe', '<INSTANCE CLASSNAME="C"/>', '<CLASS NAME="C"/>', '<X/>', '<',
                               '20240101000000.000000+000', '20241301000000.000000+000', '00000001000000.000000:000',
                               '\U0001F600', 'ab', 'abc', g.string()])]
             return 'garble_text:' + n[0]
@@ -984,8 +990,7 @@ def mutate(g, t):
         cands = [n for _, n in nodes if n[0] in ('IMETHODRESPONSE', 'METHODRESPONSE', 'EXPMETHODRESPONSE')]
         if cands:
             n = r.choice(cands)
-            err = error_elem(r.choice(['1', '6', '5', '0', '17', '28', '99', 'x', '', ' 5 ', '1_0', '-3', '5.0', '٥',
-                                       '4294967296']),
+            err = error_elem(r.choice(ERROR_CODES),
                              r.choice([None, 'd', '']), [obj_tree(_inst(g))] if r.random() < 0.3 else [])
             if r.random() < 0.5:
                 n[2] = [err]
@@ -1058,8 +1063,25 @@ def mutate_bytes(g, body):
     return 'flip', body[:i] + bytes([body[i] ^ (1 << r.randint(0, 7))]) + body[i + 1:] if body else b''
 
 
+NON_UTF8_BODIES = [b'<html><body>Fehler: ung\xfcltige Anfrage \xe9\xe8</body></html>', b'\xff\xfe<\x00h\x00t\x00m\x00l\x00>\x00',
+                   b'\xff', b'\x80abc', b'\xc3', b'\xed\xa0\x80', b'\x00\x01\x02\xfe\xff', b'caf\xe9', b'']
+
+
 def http_variants(g, body):
-    """(label, status, reason, headers, body) variations of the HTTP envelope"""
+    """(label, status, reason, headers, body) variations of the HTTP envelope; half of them with a body that is
+    not UTF-8 (error pages in Latin-1 / UTF-16, arbitrary bytes)"""
+    lab, st, reason, h, b = _http_variants(g, body)
+    r = g.r
+    x = r.random()
+    if x < 0.35:
+        return lab + '+nonutf8', st, reason, h, r.choice(NON_UTF8_BODIES)
+    if x < 0.5:
+        i = r.randint(0, len(b))
+        return lab + '+badutf8', st, reason, h, b[:i] + r.choice(BAD_UTF8) + b[i:]
+    return lab, st, reason, h, b
+
+
+def _http_variants(g, body):
     r = g.r
     k = r.choice(['status', 'status401', 'ctype', 'noctype', 'srt', 'cimerror', 'status', 'ctype'])
     h = dict(XML_HDR)
